@@ -202,6 +202,63 @@ def check_sugar(ctx, c):
             ctx.disc(None, "sugar-value-bound", vd[0], "same bound", "different", stratum="sugar", case=c)
 
 
+def payload_problems(vd, j, path="v"):
+    """the encoded value carries exactly the payload of its descriptor: integer / float / string contents, tags,
+    element order and count, custom payloads (independent of the library: descriptor vs JSON)"""
+    k = vd[0]
+    out = []
+
+    def bad(what, exp, got):
+        out.append((f"{path}: {what}", exp, got))
+
+    def kids(vds, js, where):
+        if len(vds) != len(js):
+            bad(f"{where} count", len(vds), len(js))
+            return
+        for i, (a, b) in enumerate(zip(vds, js)):
+            out.extend(payload_problems(a, b, f"{path}.{where}[{i}]"))
+
+    if k in ("int", "float", "string", "array", "list", "sarray", "extv"):
+        if j.get("v") != "Extension":
+            bad("kind", "Extension", j.get("v"))
+            return out
+        pay = j["value"]["v"]
+        if k == "int" and pay != {"log_width": vd[1], "value": vd[2]}:
+            bad("ConstInt payload", {"log_width": vd[1], "value": vd[2]}, pay)
+        if k == "float" and (not isinstance(pay, dict) or json.dumps(pay.get("value")) != json.dumps(float(vd[1]))):
+            bad("ConstF64 payload", vd[1], pay)
+        if k == "string" and pay != {"value": vd[1]}:
+            bad("ConstString payload", vd[1], pay)
+        if k in ("array", "list"):
+            kids(vd[2], pay.get("values", []), "values")
+        if k == "sarray":
+            if pay.get("name") != vd[3]:
+                bad("static array name", vd[3], pay.get("name"))
+            kids(vd[2], (pay.get("value") or {}).get("values", []), "values")
+        if k == "extv":
+            if j["value"] != {"c": vd[1], "v": json.loads(json.dumps(vd[3]))}:
+                bad("custom payload", {"c": vd[1], "v": vd[3]}, j["value"])
+            if sorted(j.get("extensions", [])) != sorted(vd[4]):
+                bad("custom extensions", sorted(vd[4]), sorted(j.get("extensions", [])))
+    elif k == "func":
+        if j.get("v") != "Function":
+            bad("kind", "Function", j.get("v"))
+    else:
+        from vf.props.c14 import EXPECT_TAG
+
+        if j.get("v") == "Tuple":
+            tag = 0
+        else:
+            tag = j.get("tag")
+        want_tag = EXPECT_TAG[k] if k in EXPECT_TAG else vd[1]
+        if tag != want_tag:
+            bad("tag", want_tag, tag)
+        fields = {"sum": lambda: vd[3], "tuple": lambda: vd[1], "some": lambda: vd[1], "left": lambda: vd[1],
+                  "right": lambda: vd[2]}.get(k, lambda: [])()
+        kids(fields, j.get("vs", []), "vs")
+    return out
+
+
 # ------------------------------------------------------------------------------------ values
 def check_value(ctx, case, stratum="value"):
     import hugr._serialization.ops as sops
@@ -214,6 +271,8 @@ def check_value(ctx, case, stratum="value"):
     Vo = VBuilder(Builder(opaque=True)).val(vd)
     j = dump(V)
     ctx.count("monitor:value-roundtrip")
+    for what, exp, got in payload_problems(vd, j)[:3]:
+        ctx.disc(None, "value-encoding-vs-descriptor", what, exp, got, stratum=stratum, case=case)
     for route in ("json", "dict"):
         y = decode(sops.Value, j, route).deserialize()
         j2 = dump(y)
